@@ -222,6 +222,7 @@ type pickLog struct {
 	seq      []string // only for single-picker batches
 	errs     int
 	resyncs  int
+	tag      string // scenario feature appended to the signature
 	syncErr  string
 	firstErr string
 	panics   int
@@ -364,9 +365,9 @@ func mode(pickers int) string {
 // modeOf adds the scenario feature "no-op re-syncs were delivered during the batch".
 func modeOf(pickers int, lg *pickLog) string {
 	if lg.resyncs > 0 {
-		return mode(pickers) + "+noop-resync"
+		return mode(pickers) + "+noop-resync" + lg.tag
 	}
-	return mode(pickers)
+	return mode(pickers) + lg.tag
 }
 
 func fact(k int) int {
@@ -755,6 +756,96 @@ func histories(r *vkit.R) {
 	})
 }
 
+// addDuringPicks: pickers are running (fresh picker per pick, as every request does) WHILE a sync adds a server to a
+// policy without subset. The picks made during the sync are not judged (the ready set is changing). Afterwards the new
+// endpoint is ready and a stable window opens: every ready endpoint, including the new one, must get its share
+// (|count - N/k| <= k!, in particular more than nothing), whatever the concurrent picks did during the sync.
+func addDuringPicks(r *vkit.R) {
+	n := tierN(r, 60, 600)
+	r.Parallel(n, 6, func(ci int, g *vkit.Rand) {
+		st := &state{Disabled: map[string]bool{}, Healthy: map[string]bool{}}
+		perm := g.Perm(len(pool))
+		ns := g.Range(1, 3)
+		for i := 0; i < ns; i++ {
+			st.Servers = append(st.Servers, pool[perm[i]])
+		}
+		for _, e := range pool {
+			st.Healthy[e] = true
+		}
+		st.Policies = []polSpec{{Res: "r0"}}
+		b, err := newBed(st)
+		if err != nil {
+			r.Inconclusive("CreateClusterInfo failed: " + err.Error())
+			return
+		}
+		defer b.close()
+		rounds := g.Range(1, 2)
+		for rd := 0; rd < rounds && len(st.Servers) < 4; rd++ {
+			var picks int64
+			stop := make(chan struct{})
+			var wg sync.WaitGroup
+			P := g.Range(2, 8)
+			for i := 0; i < P; i++ {
+				wg.Add(1)
+				go func() {
+					defer wg.Done()
+					at := attrsFor("r0")
+					for {
+						select {
+						case <-stop:
+							return
+						default:
+						}
+						vkit.Safely(func() {
+							if p, err := b.ci.MatchAttributes(at); err == nil {
+								p.Pop() //nolint
+							}
+						})
+						atomic.AddInt64(&picks, 1)
+					}
+				}()
+			}
+			vkit.WaitFor(5*time.Second, func() bool { return atomic.LoadInt64(&picks) >= 40 })
+			before := atomic.LoadInt64(&picks)
+			b.mu.Lock()
+			st.Servers = append(st.Servers, pool[perm[len(st.Servers)]])
+			b.mu.Unlock()
+			err := b.resync()
+			during := atomic.LoadInt64(&picks) - before
+			for t := bed.Now() + int64(g.Range(0, 300))*1000; bed.Now() < t; {
+			}
+			close(stop)
+			wg.Wait()
+			if err != nil {
+				r.Inconclusive("ClusterInfo.Sync failed for an update that adds a server: " + err.Error())
+				return
+			}
+			r.Count("server_additions_during_picks", 1)
+			r.Count("picks_made_while_a_server_was_being_added", int(during))
+			if during > 0 {
+				r.Count("server_additions_overlapped_by_picks", 1)
+			}
+			snap := st.clone()
+			ready := snap.readyList(0)
+			k := len(ready)
+			N := k * (3*fact(k) + g.Range(10, 200))
+			P2 := g.PickInt(pickerChoices)
+			lg := runBatch(b, "r0", N, P2, true, nil, nil, resyncOpt{})
+			lg.tag = "+server-added-during-picks"
+			r.Eval(1)
+			r.Count("picks", N)
+			r.Count("batches_after_server_addition", 1)
+			r.Distinct(vkit.Hash64("add", strings.Join(ready, ","), fmt.Sprint(N), fmt.Sprint(P), fmt.Sprint(P2)))
+			before2 := r.Violations()
+			judge(r, snap, 0, N, P2, true, lg, fmt.Sprintf("add-during-picks case=%d round=%d", ci, rd))
+			if r.Violations() != before2 {
+				return
+			}
+		}
+	})
+	r.Require(r.Counter("server_additions_overlapped_by_picks") >= int64(n*8/10), "too few server additions were overlapped by concurrent picks")
+}
+
 // linModel: fetch-and-increment modulo k; the state is the index of the last pick (-1 = not known yet).
 func linModel(k int) porcupine.Model {
 	return porcupine.Model{
@@ -984,7 +1075,7 @@ func TestCheck(t *testing.T) {
 			"every k-window of a single-picker sequence a permutation; no subset -> |count-N/k|<=k!; only ready endpoints of the policy returned; (2) <=60-pick concurrent " +
 			"histories checked with porcupine against fetch-and-increment mod k; (3) large-N batches on policies without subset, k<=4, fresh picker per pick. " +
 			"In 45% of the batches no-op re-syncs (same object, or an object whose annotation / logging mode / flow-control schema changed while servers, disabled flags and policies did not) are delivered through ClusterInfo.Sync between the picks of a single picker or concurrently with the pickers, and in 30% between back-to-back batches: the ready set is unchanged, so the same oracle applies. " +
-			"Non-trivial = k>=2 ready endpoints; distinct = hash(kind, ready list, servers, N, pickers). Every-statement schedule points in clusterinfo.go perturb the interleaving.")
+			"(4) picker goroutines run WHILE a sync adds a server to a policy without subset; then the new endpoint is ready and a stable batch must give every ready endpoint incl. the new one its share. Non-trivial = k>=2 ready endpoints; distinct = hash(kind, ready list, servers, N, pickers). Every-statement schedule points in clusterinfo.go perturb the interleaving.")
 		r.Assume("a policy's picks are judged only while no other policy with the same ready set is picking (the implementation keeps one cursor per ready list, as the property's anchors describe)")
 		r.Assume("windows of consecutive picks are not extended across a spec or readiness change of the cluster (a server-list change restarts the cursors)")
 
@@ -995,6 +1086,7 @@ func TestCheck(t *testing.T) {
 		vkit.Sched.Enable(seed, 0.05, 0.02, 0.002)
 		histories(r)
 		linHistories(r)
+		addDuringPicks(r)
 		vkit.Sched.Enable(seed+1, 0.01, 0.002, 0.00005)
 		largeNoSubset(r)
 		vkit.Sched.Disable()
